@@ -369,7 +369,7 @@ def run_both(prop, cases):
 # ----------------------------------------------------------------------------- step 5: shrink
 
 # top-level positions that hold oracle tables (tabulated answers of Qt): never shrunk
-PROTECT = {"sock": {2}, "srv": {2}, "srvm": {2}, "fs": {0, 1, 4}, "bauth": {3}, "slot": {2}}
+PROTECT = {"sock": {2}, "srv": {2}, "srvm": {2}, "fs": {0, 1, 4}, "bauth": {3}, "slot": {2}, "proxy": {5}}
 
 
 def candidates(v, protect=frozenset()):
